@@ -124,7 +124,8 @@ Fixpoint show_raw (e : uexpr) : list token :=
         | _ => tk TLeftBrace :: show_raw e' ++ [tk TRightBrace]
         end
   | UCast ty x => at_ 11 false x (show_raw x) ++ [tk TKeywordAs; tk (TIdentifier (type_name ty))]
-  | UBlock _ | UMatch _ _ => [tk TLeftParen; tk TRightParen]     (* not printed: outside [wf_expr] *)
+  | UBlock _ | UMatch _ _ | UArrayLiteral _ | UArrayRepeat _ _ | UArrayRepeatConst _ _ | URange _ _ _ | UStructLiteral _ _ | UEnumLiteral _ _ _ =>
+      [tk TLeftParen; tk TRightParen]     (* not printed: outside [wf_expr] *)
   end.
 
 Definition show_min (e : uexpr) : list token := show_raw e.
@@ -158,7 +159,8 @@ Fixpoint wf_expr (e : uexpr) : Prop :=
   | UFnCall f args => ident_ok f /\ all args
   | UIf c t e' => wf_expr c /\ wf_expr t /\ wf_expr e'
   | UCast ty x => wf_type ty /\ wf_expr x
-  | UBlock _ | UMatch _ _ => False     (* the expression printer does not cover blocks and match *)
+  | UBlock _ | UMatch _ _ | UArrayLiteral _ | UArrayRepeat _ _ | UArrayRepeatConst _ _ | URange _ _ _ | UStructLiteral _ _ | UEnumLiteral _ _ _ =>
+      False     (* the expression printer does not cover blocks, match and these literals *)
   end.
 
 Fixpoint wf_all (es : list uexpr) : Prop :=
@@ -183,6 +185,12 @@ Section UexprInd.
   Hypothesis HCast : forall ty x, Q x -> Q (UCast ty x).
   Hypothesis HBlock : forall b, Q (UBlock b).
   Hypothesis HMatch : forall e arms, Q (UMatch e arms).
+  Hypothesis HArrLit : forall es, Q (UArrayLiteral es).
+  Hypothesis HArrRep : forall e k, Q (UArrayRepeat e k).
+  Hypothesis HArrRepC : forall e c, Q (UArrayRepeatConst e c).
+  Hypothesis HRange : forall lo hi t, Q (URange lo hi t).
+  Hypothesis HStructLit : forall name fields, Q (UStructLiteral name fields).
+  Hypothesis HEnumLit : forall e v args, Q (UEnumLiteral e v args).
 
   Fixpoint uexpr_ind2 (e : uexpr) : Q e :=
     let all := fix all (es : list uexpr) : Forall Q es :=
@@ -201,6 +209,12 @@ Section UexprInd.
     | UCast ty x => HCast ty x (uexpr_ind2 x)
     | UBlock b => HBlock b
     | UMatch e arms => HMatch e arms
+    | UArrayLiteral es => HArrLit es
+    | UArrayRepeat e k => HArrRep e k
+    | UArrayRepeatConst e c => HArrRepC e c
+    | URange lo hi t => HRange lo hi t
+    | UStructLiteral name fields => HStructLit name fields
+    | UEnumLiteral e v args => HEnumLit e v args
     end.
 End UexprInd.
 
@@ -490,6 +504,12 @@ Proof.
     exists t. cbn [show_raw prec]. split; [exact Ht|]. repeat split; intros; try discriminate; auto.
   - intros. eexists. cbn. repeat split; intros; try discriminate; auto.
   - intros. eexists. cbn. repeat split; intros; try discriminate; auto.
+  - intros. eexists. cbn. repeat split; intros; try discriminate; auto.
+  - intros. eexists. cbn. repeat split; intros; try discriminate; auto.
+  - intros. eexists. cbn. repeat split; intros; try discriminate; auto.
+  - intros. eexists. cbn. repeat split; intros; try discriminate; auto.
+  - intros. eexists. cbn. repeat split; intros; try discriminate; auto.
+  - intros. eexists. cbn. repeat split; intros; try discriminate; auto.
 Qed.
 
 (* ------------------------------------------------------------------ next token tests *)
@@ -750,7 +770,7 @@ Lemma cp_numu n t : CP (UNumUnsigned n t).
 Proof.
   apply (cp_atom _ (TUnsignedNum n t)); try reflexivity. intros b rest Hnf pe n0.
   unfold parse_primary_base. cbn [advance toks sla parse_literal].
-  now rewrite (nf_peek 15 b rest TDoubleDot Hnf eq_refl).
+  now rewrite (nf_nm 15 b rest TDoubleDot Hnf eq_refl).
 Qed.
 
 Lemma cp_nums z t : CP (UNumSigned z t).
@@ -877,7 +897,7 @@ Proof.
       replace (teqb TLeftBrace TKeywordIf) with false by reflexivity.
       unfold expect at 1. rewrite nm_hd, teqb_refl. rewrite <- app_assoc. cbn [app].
       rewrite (H3 g n Hg Hn). cbn [bindp]. unfold expect. rewrite nm_hd, teqb_refl. reflexivity. }
-    destruct e' as [| | | | | | | | | | | |c2 t2 e2| | |]; try (exists f3; exact Hblock).
+    destruct e' as [| | | | | | | | | | | |c2 t2 e2| | | | | | | | |]; try (exists f3; exact Hblock).
     destruct (HCe c2 t2 e2 eq_refl b rest (UIf c2 t2 e2) (PState rest b)) as [f4 H4].
     { exact Hnf. } { exists 0%nat. intros; reflexivity. }
     exists f4. intros g n Hg Hn. cbv zeta.
@@ -1020,6 +1040,12 @@ Proof.
   - intros ty x IHx [Hty Hx]. destruct (all_of_cp x (IHx Hx)) as (_ & _ & _ & HG). now apply cp_cast.
   - intros b [].
   - intros e arms [].
+  - intros es [].
+  - intros e k [].
+  - intros e c [].
+  - intros lo hi t [].
+  - intros name fields [].
+  - intros e v args [].
 Qed.
 
 (* ------------------------------------------------------------------ THE THEOREM *)
@@ -1170,7 +1196,8 @@ Qed.
 (* the flag is state: every successful parse of a printed expression gives it back as it was
    (part of [parse_show_min_st]); and it matters: with the flag set, `v {` is not an identifier *)
 Example flag_matters :
-  parse_expr_st 10 (PState [tk (TIdentifier [118]); tk TLeftBrace; tk TRightBrace] true) = POutside OStructLiteral /\
+  parse_expr_st 10 (PState [tk (TIdentifier [118]); tk TLeftBrace; tk TRightBrace] true)
+    = POk (UStructLiteral [118] []) (PState [] true) /\
   parse_expr_st 10 (PState [tk (TIdentifier [118]); tk TLeftBrace; tk TRightBrace] false)
     = POk (UIdentifier [118]) (PState [tk TLeftBrace; tk TRightBrace] false).
 Proof. split; vm_compute; reflexivity. Qed.
@@ -1377,6 +1404,66 @@ Module StmtExamples.
 
   (* a struct literal is not allowed in the header of `for` / `match`, but again inside the braces *)
   Example ex_flag : pb "for x in xs { y } for x in (S { a: 1 }) { }" = None /\
-    (exists o, parse_block_text 50 (toks_of "for x in xs { S { a: 1 } }") = POutside o).
-  Proof. split; [vm_compute; reflexivity|]. eexists. vm_compute. reflexivity. Qed.
+    pb "for x in xs { S { a: 1 } }" =
+      Some [SForEach (pid "x") (v "xs") [SExpr (UStructLiteral (x_ "S") [(x_ "a", n 1)])]].
+  Proof. split; vm_compute; reflexivity. Qed.
+
+  (* array literals and repeats *)
+  Example ex_arrays : pb "let a = [1, x + 1, f(y),]; let b = [0u8; 4]; let c = [[true; N]; 2usize]; [a][0]" =
+    Some [SLet (pid "a") None (UArrayLiteral [n 1; UOp BAdd (v "x") (n 1); UFnCall (x_ "f") [v "y"]]);
+          SLet (pid "b") None (UArrayRepeat (UNumUnsigned 0 U8) 4);
+          SLet (pid "c") None (UArrayRepeat (UArrayRepeatConst UTrue (x_ "N")) 2);
+          SExpr (UArrayAccess (UArrayLiteral [v "a"]) (UNumUnsigned 0 Usize))].
+  Proof. vm_compute. reflexivity. Qed.
+
+  Example ex_array_errors :
+    pb "let a = [];" = None /\ pb "let a = [1; 2u8];" = None /\ pb "let a = [1; n + 1];" = None /\
+    pb "let a = [1, 2;];" = None /\ pb "let a = [1 2];" = None.
+  Proof. repeat split; vm_compute; reflexivity. Qed.
+
+  (* ranges: only `lo..hi` between two unsigned number tokens; the type is the specified suffix *)
+  Example ex_ranges : pb "for i in 0..10 { } for j in 2u8..5 { } for k in 1..4u16 { } for l in 3usize..3usize { }" =
+    Some [SForEach (pid "i") (URange 0 10 UnspecifiedU) [];
+          SForEach (pid "j") (URange 2 5 U8) [];
+          SForEach (pid "k") (URange 1 4 U16) [];
+          SForEach (pid "l") (URange 3 3 Usize) []].
+  Proof. vm_compute. reflexivity. Qed.
+
+  Example ex_range_errors :
+    pb "for i in 0u8..10u16 { }" = None /\ pb "for i in 0..n { }" = None /\ pb "for i in 0..=3 { }" = None /\
+    pb "for i in n..3 { }" = None /\ pb "for i in 0..-1 { }" = None.
+  Proof. repeat split; vm_compute; reflexivity. Qed.
+
+  (* struct literals: shorthand fields, trailing comma, the fields sorted by name (stable) *)
+  Example ex_structs : pb "let s = S { b: 1, a, c: T { }, }; let t = U { z: f(S { a }) }; s" =
+    Some [SLet (pid "s") None (UStructLiteral (x_ "S") [(x_ "a", v "a"); (x_ "b", n 1); (x_ "c", UStructLiteral (x_ "T") [])]);
+          SLet (pid "t") None (UStructLiteral (x_ "U") [(x_ "z", UFnCall (x_ "f") [UStructLiteral (x_ "S") [(x_ "a", v "a")]])]);
+          SExpr (v "s")].
+  Proof. vm_compute. reflexivity. Qed.
+
+  Example ex_struct_duplicate_field : pb "S { a: 2, b: 0, a: 1 }" =
+    Some [SExpr (UStructLiteral (x_ "S") [(x_ "a", n 2); (x_ "a", n 1); (x_ "b", n 0)])].
+  Proof. vm_compute. reflexivity. Qed.
+
+  Example ex_struct_errors :
+    pb "let s = S { a 1 };" = None /\ pb "let s = S { a: };" = None /\ pb "let s = S { 1: a };" = None /\
+    pb "if S { a: 1 } == s { }" = None /\ pb "match S { a } { _ => 0 }" = None /\
+    pb "if (S { a: 1 }) == s { }" = None.
+  Proof. repeat split; vm_compute; reflexivity. Qed.
+
+  (* enum literals: unit variant, tuple variant (also with no field), nested *)
+  Example ex_enums : pb "let e = E::A; let f = E::B(1, E::C(), x,); g(E::A == e)" =
+    Some [SLet (pid "e") None (UEnumLiteral (x_ "E") (x_ "A") None);
+          SLet (pid "f") None (UEnumLiteral (x_ "E") (x_ "B")
+                                 (Some [n 1; UEnumLiteral (x_ "E") (x_ "C") (Some []); v "x"]));
+          SExpr (UFnCall (x_ "g") [UOp BEq (UEnumLiteral (x_ "E") (x_ "A") None) (v "e")])].
+  Proof. vm_compute. reflexivity. Qed.
+
+  Example ex_enum_errors :
+    pb "let e = E::;" = None /\ pb "let e = E::1;" = None /\ pb "let e = E::A(;" = None /\ pb "let e = E::A(1 2);" = None.
+  Proof. repeat split; vm_compute; reflexivity. Qed.
+
+  (* still outside: an array type whose size is a constant expression *)
+  Example ex_outside : exists o, parse_block_text 50 (toks_of "let a: [u8; const { N + 1 }] = b;") = POutside o.
+  Proof. eexists. vm_compute. reflexivity. Qed.
 End StmtExamples.
